@@ -74,6 +74,25 @@ int main(int argc, char ** argv)
     Pose3D a21 = A2 * a1, d = (A2 * A1) * p;
     if ((a21.position - d.position).norm() > 1e-6 || ((eulerAnglesToRotation3D(a21.orientation) - eulerAnglesToRotation3D(d.orientation)).norm() > 1e-7 && std::fabs(std::cos(d.orientation[1])) > 1e-3 && std::fabs(std::cos(a1.orientation[1])) > 1e-3)) FAIL("successive transforms do not compose");
   }
+  // SE(3) action for very small rotations (any axis) of poses far from the origin, and many small steps against their composition
+  for (double ang : {1e-6, 8e-7, 3e-8, 1e-4}) for (int ax = 0; ax < 3; ++ax) {
+    Eigen::Vector3d axis = Eigen::Vector3d::Unit(ax);
+    Eigen::Affine3d A = Eigen::Translation3d(0.5, -0.25, 0.125) * Eigen::AngleAxisd(ang, axis);
+    Pose3D p; p.position = Eigen::Vector3d(1e4, -1e4, 5e3); p.orientation = Eigen::Vector3d(0.1, -0.2, 0.3); p.covariance.setIdentity();
+    Pose3D r = A * p;
+    Eigen::Vector3d want = A * p.position;
+    if ((r.position - want).norm() > 1e-9 * (1 + want.norm())) FAIL("rotation of %g rad about axis %d, pose at (1e4,-1e4,5e3): position is %.3g away from R p + T", ang, ax, (r.position - want).norm());
+    if ((eulerAnglesToRotation3D(r.orientation) - A.rotation() * eulerAnglesToRotation3D(p.orientation)).norm() > 1e-9) FAIL("rotation of %g rad about axis %d: attitude is not R * R(pose) (difference %.3g)", ang, ax, (eulerAnglesToRotation3D(r.orientation) - A.rotation() * eulerAnglesToRotation3D(p.orientation)).norm());
+  }
+  {
+    Eigen::Affine3d step = Eigen::Translation3d(1e-3, 0, 0) * Eigen::AngleAxisd(1e-6, Eigen::Vector3d::UnitZ()), all = Eigen::Affine3d::Identity();
+    Pose3D p; p.position = Eigen::Vector3d(100, 50, 0); p.orientation = Eigen::Vector3d(0, 0, 0.2); p.covariance.setIdentity();
+    Pose3D q = p;
+    for (int k = 0; k < 4000; ++k) { q = step * q; all = step * all; }
+    Pose3D d = all * p;
+    if ((q.position - d.position).norm() > 1e-6) FAIL("4000 steps of (1e-3 m, 1e-6 rad) against their composition: positions differ by %.3g", (q.position - d.position).norm());
+    if ((eulerAnglesToRotation3D(q.orientation) - eulerAnglesToRotation3D(d.orientation)).norm() > 1e-7) FAIL("4000 small steps against their composition: attitudes differ by %.3g", (eulerAnglesToRotation3D(q.orientation) - eulerAnglesToRotation3D(d.orientation)).norm());
+  }
   // ellipses: diagonal, rotated, rank-deficient (v v^T), scaled
   double sigmas[] = {0.5, 1, 3, 10};
   for (int k = 0; k < 400; ++k) {
